@@ -25,7 +25,7 @@ RULE = ("one evaluation = one corpus (0-6 jobs as in C06, real project on disk) 
         "parse_filter_arg, _find_job_ids and find_jobs(str), (c) the cursor API (len, iteration twice, every index "
         "in [-n-1, n], sampled slices incl. negative/zero steps, membership of every job and of a foreign job), "
         "(d) groupby over top-level, dotted/nested, sp./doc. prefixed keys, tuples of keys, None, callables, with "
-        "and without default, on filtered and unfiltered cursors; distinct = distinct (corpus, items) JSON; "
+        "and without default, on filtered and unfiltered cursors (raw labels: a single key never yields a tuple); distinct = distinct (corpus, items) JSON; "
         "non-trivial = at least one job")
 MODELLED = ["int(str), float(str), json.loads (results supplied per case by the harness as tables)",
             "re.search, math.isclose (tables, as in C06)", "sorted() on mutually comparable labels; itertools.groupby",
